@@ -426,6 +426,57 @@ pub fn amplification_file(k: usize, nbytes: usize) -> Vec<u8> {
     ref_pages(&logical)
 }
 
+/// stale-stream family (C09, time): `k` data packets that each carry `nbytes` bytes for a record of zero bit size
+/// (never consumed) and nothing for the 1-bit record the iterator is waiting for, then one packet that completes
+/// 8 points.  One `next()` walks through all packets; bytes that are kept and copied again with every packet make
+/// that call quadratic in the file size.
+pub fn stale_stream_file(k: usize, nbytes: usize) -> Vec<u8> {
+    let xml = "<?xml version=\"1.0\" encoding=\"UTF-8\"?>\n<e57Root type=\"Structure\" xmlns=\"http://www.astm.org/COMMIT/E57/2010-e57-v1.0\">\n<formatName type=\"String\"><![CDATA[ASTM E57 3D Imaging Data File]]></formatName>\n<guid type=\"String\"><![CDATA[stale]]></guid>\n<versionMajor type=\"Integer\">1</versionMajor>\n<versionMinor type=\"Integer\">0</versionMinor>\n<data3D type=\"Vector\" allowHeterogeneousChildren=\"1\">\n<vectorChild type=\"Structure\">\n<guid type=\"String\"><![CDATA[pc]]></guid>\n<points type=\"CompressedVector\" fileOffset=\"48\" recordCount=\"8\">\n<prototype type=\"Structure\">\n<cartesianX type=\"Integer\" minimum=\"0\" maximum=\"0\">0</cartesianX>\n<cartesianY type=\"Integer\" minimum=\"0\" maximum=\"0\">0</cartesianY>\n<cartesianZ type=\"Integer\" minimum=\"0\" maximum=\"0\">0</cartesianZ>\n<intensity type=\"Integer\" minimum=\"0\" maximum=\"1\">0</intensity>\n</prototype>\n</points>\n</vectorChild>\n</data3D>\n<images2D type=\"Vector\" allowHeterogeneousChildren=\"1\">\n</images2D>\n</e57Root>\n".as_bytes().to_vec();
+    let packet = |sizes: [usize; 4]| -> Vec<u8> {
+        let total: usize = sizes.iter().sum();
+        let mut pkt: Vec<u8> = vec![1, 0];
+        let plen = 6 + 2 * 4 + total;
+        let pad = (4 - plen % 4) % 4;
+        pkt.extend_from_slice(&((plen + pad - 1) as u16).to_le_bytes());
+        pkt.extend_from_slice(&4u16.to_le_bytes());
+        for s in sizes {
+            pkt.extend_from_slice(&(s as u16).to_le_bytes());
+        }
+        pkt.extend(std::iter::repeat(0x55u8).take(total));
+        pkt.extend(std::iter::repeat(0u8).take(pad));
+        pkt
+    };
+    let mut pkts: Vec<u8> = vec![];
+    for _ in 0..k {
+        pkts.extend(packet([nbytes, 0, 0, 0]));
+    }
+    pkts.extend(packet([0, 0, 0, 1]));
+    let l2p = |n: usize| n + 4 * (n / 1020);
+    let mut logical: Vec<u8> = vec![0; 48];
+    logical.push(1);
+    logical.extend_from_slice(&[0; 7]);
+    logical.extend_from_slice(&((32 + pkts.len()) as u64).to_le_bytes());
+    logical.extend_from_slice(&(l2p(48 + 32) as u64).to_le_bytes());
+    logical.extend_from_slice(&0u64.to_le_bytes());
+    logical.extend_from_slice(&pkts);
+    let xml_start = logical.len();
+    logical.extend_from_slice(&xml);
+    let pages = (logical.len() + 1019) / 1020;
+    logical.resize(pages * 1020, 0);
+    logical[0..8].copy_from_slice(b"ASTM-E57");
+    logical[8..12].copy_from_slice(&1u32.to_le_bytes());
+    logical[12..16].copy_from_slice(&0u32.to_le_bytes());
+    logical[16..24].copy_from_slice(&((pages * 1024) as u64).to_le_bytes());
+    logical[24..32].copy_from_slice(&(l2p(xml_start) as u64).to_le_bytes());
+    logical[32..40].copy_from_slice(&(xml.len() as u64).to_le_bytes());
+    logical[40..48].copy_from_slice(&1024u64.to_le_bytes());
+    ref_pages(&logical)
+}
+
+fn work_now() -> u64 {
+    e57::verif::WORK.load(std::sync::atomic::Ordering::Relaxed)
+}
+
 pub fn generate(sink: &mut Sink, seed: u64, thorough: bool) {
     let mut rng = Rng::new(seed ^ 0x3A7A);
     // sources
@@ -450,8 +501,12 @@ pub fn generate(sink: &mut Sink, seed: u64, thorough: bool) {
     let n = if thorough { 20000 } else { 1500 };
     // amplification family: many constant records next to one dense bit stream (see `amplification_file`)
     let amps: Vec<(usize, usize)> = if thorough { vec![(1000, 4000), (120, 20000), (300, 8000), (2000, 6000)] } else { vec![(1000, 4000)] };
-    for i in 0..n + amps.len() {
-        let (mut file, mut kind) = if i >= n {
+    let stales: Vec<(usize, usize)> = if thorough { vec![(400, 500), (1500, 100), (200, 3000)] } else { vec![(400, 500)] };
+    for i in 0..n + amps.len() + stales.len() {
+        let (mut file, mut kind) = if i >= n + amps.len() {
+            let (k, nb) = stales[i - n - amps.len()];
+            (stale_stream_file(k, nb), "stale-stream")
+        } else if i >= n {
             let (k, nb) = amps[i - n];
             (amplification_file(k, nb), "amplification")
         } else {
@@ -474,7 +529,9 @@ pub fn generate(sink: &mut Sink, seed: u64, thorough: bool) {
         crate::watchdog_begin(&line);
         reset_peak();
         let t0 = std::time::Instant::now();
+        let w0 = work_now();
         let out = eng_reader::run_ops(&file, &o);
+        let work = work_now() - w0;
         let dt = t0.elapsed();
         let peak = peak_above_current();
         crate::watchdog_end();
@@ -487,6 +544,34 @@ pub fn generate(sink: &mut Sink, seed: u64, thorough: bool) {
         let mem_bound = 48 * 1024 * 1024 + 4096 * file.len();
         if peak > mem_bound {
             sink.fail("C09", &format!("reader/memory/{kind}"), &line, &format!("peak allocation {peak} bytes for a {} byte input", file.len()));
+        }
+        // work (bytes moved, values delivered; counted by the crate under cfg(e57_verif)).  A packet of 64 KiB can
+        // hold half a million 1-bit points and every point delivers one value per record, so the constant factor of
+        // the linear bound is large; it only catches gross excess.  Super-linear growth is judged by scaling (below).
+        let nops = o.iter().filter(|t| matches!(**t, "META" | "RAW" | "SIMPLE" | "BLOB" | "XML" | "CRC")).count() as u64 + 2;
+        let work_bound = nops * (4096 * file.len() as u64 + 8 * 1024 * 1024);
+        sink.stat_max("work_per_input_byte_max_x100", work * 100 / (file.len() as u64).max(1));
+        if work > work_bound {
+            sink.fail("C09", &format!("reader/work/{kind}"), &line, &format!("{work} bytes moved / values delivered for a {} byte input and {} operations (bound {work_bound})", file.len(), nops - 2));
+        }
+        // scaling: the same family at half the size must cost about half — a call whose work grows with the SQUARE
+        // of the input size is not bounded by a fixed multiple of it
+        if kind == "stale-stream" || kind == "amplification" {
+            let half = if kind == "stale-stream" {
+                let (k, nb) = stales[i - n - amps.len()];
+                stale_stream_file(k / 2, nb)
+            } else {
+                let (k, nb) = amps[i - n];
+                amplification_file(k, nb / 2)
+            };
+            let w1 = work_now();
+            let _ = eng_reader::run_ops(&half, &o);
+            let work_half = (work_now() - w1).max(1);
+            sink.oracle_evals += 1;
+            sink.stat_max(&format!("scaling_x100_{kind}"), work * 100 / work_half);
+            if work > 3 * work_half {
+                sink.fail("C09", &format!("reader/work-superlinear/{kind}"), &line, &format!("{work} bytes moved / values delivered for a {} byte input, {work_half} for the same construction at half the size ({} bytes): more than 3 times as much — the work of one call grows faster than the input", file.len(), half.len()));
+            }
         }
         if dt.as_secs_f64() > 5.0 {
             sink.fail("C09", &format!("reader/time/{kind}"), &line, &format!("{:.1} s for a {} byte input", dt.as_secs_f64(), file.len()));
